@@ -329,7 +329,42 @@ def check_const_build(lname):
             for key, field in chosen:
                 covered |= mask(field.width) << field.offset
             path.prove(f"{name}::unspecified-bits-zero", (to_sint(c.as_bits()) & ~covered) == 0)
-    return runner.from_exploration(name, Exploration(name, body).run())
+    res = runner.from_exploration(name, Exploration(name, body).run())
+    # initialisers given as hdl.Const of ANOTHER width / signedness than the field (wider: truncated to the field; narrower
+    # signed: sign-extended into the field; narrower unsigned: zero-extended), against the integer model "all-zero value with the
+    # fields assigned in order" -- every combination of the listed constants, closed
+    from amaranth.hdl import Const as HConst, signed as hsigned, unsigned as hunsigned
+    chosen = [kf for kf in top_fields if scalar(kf[1].shape) and not isinstance(kf[1].shape, range)]
+    if is_union:
+        chosen = chosen[:1]
+    bad = None
+    n = 0
+    if chosen:
+        def variants(w):
+            out = []
+            for cw, sg in ((w + 2, False), (w + 2, True), (max(w - 1, 1), True), (max(w - 1, 1), False)):
+                for cv in (0, 1, -1, (1 << (cw - 1)), (1 << cw) - 1, 5):
+                    out.append(HConst(cv, hsigned(cw) if sg else hunsigned(cw)))
+            return out
+        import itertools as _it
+        pools = [variants(f.width)[:: max(1, len(chosen) - 1)] for _k, f in chosen]
+        for combo in _it.islice(_it.product(*pools), 4000):
+            n += 1
+            init = {key: cst for (key, _f), cst in zip(chosen, combo)}
+            want = 0
+            for (key, f), cst in zip(chosen, combo):
+                m_ = mask(f.width) << f.offset
+                want = (want & ~m_) | ((cst.value << f.offset) & m_)
+            try:
+                got = layout.const(init).as_bits()
+            except Exception as e:
+                got = repr(e)[:100]
+            if got != want and bad is None:
+                bad = {"layout": lname, "initialiser": {str(k): repr(v) for k, v in init.items()}, "as_bits()": got, "expected": want,
+                       "how": "Layout.const(init).as_bits() against an all-zero value with the fields assigned in order"}
+        res["obligations"].append({"name": f"{name}::const-initialisers-of-other-widths", "kind": "post", "status": "proved" if bad is None else "refuted",
+                                   "backend": "closed", "time_s": 0.0, **({} if bad is None else {"failing_input": bad})})
+    return res
 
 
 def check_view(lname, broken=False):
